@@ -137,7 +137,46 @@ def apply_prefix(s, ops):
         elif n == "merge_empty":
             from scoda.sequences.sequence import Sequence
             s.merge([Sequence()])
+        elif n == "rejected":
+            # a public call that the library REJECTS (it raises); whatever it leaves behind -- on the object, in a class-level or
+            # module-level value -- must not influence the legal call that follows
+            from vmon.monitors import LOG
+            k = op.get("kind")
+            try:
+                if k == "scale_fraction":
+                    s.scale(2.5, quantise_afterwards=False)
+                elif k == "scale_small":
+                    s.scale(0.3, quantise_afterwards=False)
+                elif k == "bar_overlong":
+                    from scoda.elements.bar import Bar
+                    c = s.copy()
+                    c.pad(200)
+                    Bar(c, 1, 32)
+                elif k == "bar_conflicting_signature":
+                    from scoda.elements.bar import Bar
+                    from scoda.elements.message import Message
+                    c = s.copy()
+                    c.add_absolute_message(Message(message_type=MT.TIME_SIGNATURE, numerator=7, denominator=8, time=0))
+                    Bar(c, 3, 4)
+                elif k == "tokenise_invalid":
+                    from scoda.tokenisation.notelike_tokenisation import MultiTrackLargeVocabularyNotelikeTokeniser as _Tok
+                    from scoda.sequences.sequence import Sequence
+                    _Tok(num_tracks=2).tokenise([s.copy()])              # wrong number of sequences
+                elif k == "detokenise_invalid":
+                    from scoda.tokenisation.notelike_tokenisation import MultiTrackLargeVocabularyNotelikeTokeniser as _Tok
+                    _Tok(num_tracks=1).detokenise(["bar", "no_such_token"])
+                elif k == "overwrite_stale":
+                    ms = list(s.abs._messages)
+                    s.rel
+                    s.invalidate_abs()
+                    s.overwrite_absolute_messages(ms)
+                LOG.n("prefix.rejected_call_did_not_raise." + str(k))
+            except Exception:
+                LOG.n("prefix.rejected_call_raised." + str(k))
     return s
+
+
+REJECTED_KINDS = ["scale_fraction", "bar_overlong", "tokenise_invalid", "scale_small", "bar_conflicting_signature", "detokenise_invalid"]
 
 
 EDIT_OPS = ["cutoff", "set_channel", "transpose", "concat_copy", "iter_rel_velocity_edit", "pad", "scale", "merge_empty"]
